@@ -10,7 +10,7 @@
 Termination is observed as "every path ends within the per-path budget".
 """
 from vfy.lemma import lemma, P
-from vfy.lemmas.common import S, cp_ok, cp_md, cp_in, all_ok, all_in, ALPH14, by, fixed
+from vfy.lemmas.common import S, cp_ok, cp_md, cp_in, all_ok, all_in, ALPH14, by, fixed, cell, cells
 from vfy.plug.stubs import install_quote
 
 ASSUMPTIONS = ["Pygments' highlight/get_lexer_by_name/guess_lexer are third-party and replaced by nondeterministic stubs (return a string / raise ClassNotFound on a symbolic boolean)",
@@ -238,8 +238,8 @@ OPENERS = {'paragraph': ['a\n'], 'quote': ['> q\n'], 'item': ['- i\n'], 'ordered
            'quote-item': ['> - i\n'], 'item-quote': ['- > q\n']}
 
 
-@lemma('T2.continuation', 'C01', quick=[{'open': o, 'k': k} for o in sorted(OPENERS) for k in (1, 2)],
-       thorough=[{'open': o, 'k': k} for o in sorted(OPENERS) for k in (1, 2, 3)], timeout=600, per_path=90,
+@lemma('T2.continuation', 'C01', quick=[{'open': o, 'k': 1} for o in sorted(OPENERS)] + cells('c1cell', [' \t', '>-*+#`|<[=~:'], [{'open': o, 'k': 2} for o in ('quote', 'item', 'paragraph')]),
+       thorough=[{'open': o, 'k': 1} for o in sorted(OPENERS)] + cells('c1cell', [' \t', '>-*+#`|<[=~:'], [{'open': o, 'k': 2} for o in sorted(OPENERS)] + [{'open': o, 'k': 3, 'timeout': 3000} for o in ('quote', 'item', 'paragraph', 'indented')]), timeout=600, per_path=90,
        covers=['block_tokenizer.py:tokenize_block', 'block_token.py:Quote.read', 'block_token.py:ListItem.read', 'block_token.py:Paragraph.read',
                'block_token.py:BlockCode.read', 'block_token.py:CodeFence.read', 'block_token.py:Table.read', 'block_token.py:HtmlBlock.read', 'block_token.py:Footnote.read',
                'block_token.py:Quote.convert_leading_tabs', 'block_token.py:ListItem.parse_continuation'],
@@ -247,7 +247,7 @@ OPENERS = {'paragraph': ['a\n'], 'quote': ['> q\n'], 'item': ['- i\n'], 'ordered
             'tokenize_block returns (no exception, every path ends) -- the continuation / lazy-continuation / interruption tests of every reader on an arbitrary next line')
 def t2_continuation(c1: int, c2: int, c3: int) -> bool:
     """
-    pre: all_ok(cp_ok, P('k'), c1, c2, c3) and no_nl(P('k'), c1, c2, c3)
+    pre: cell(c1, 'c1cell') and all_ok(cp_ok, P('k'), c1, c2, c3) and no_nl(P('k'), c1, c2, c3)
     post: _
     """
     from mistletoe import block_token as bt, block_tokenizer as btk, token as tokmod
